@@ -191,9 +191,10 @@ Definition spec_round_b (acs : list conv) (f : string) (a : list (string * list 
 (* ================================================================ Python values (strengthening round 2)
    "exactly the given values" when the caller hands over Python objects, written from the property
    text (its quantifier names empty list, empty string, unicode, booleans/integers):
-     * a value is a str, a bool or an int; what the wire carries for it is the str itself, the
-       xs:boolean lexical form "true"/"false", the decimal numeral — and the AttributeValue is typed
-       accordingly (xs:string / xs:boolean / xs:integer);
+     * a value is a str, a bool, an int or a float; what the wire carries for it is the str itself,
+       the xs:boolean lexical form "true"/"false", the decimal numeral, the numeral Python prints for
+       the float (given with the case) — and the AttributeValue is typed accordingly (xs:string /
+       xs:boolean / xs:integer / xs:float);
      * a single object stands for the list holding just that object;
      * None is not a value: a dictionary containing it is outside the property;
      * eduPersonTargetedID values (wire name = the OID, sent inside NameID elements) are strings. *)
@@ -205,6 +206,7 @@ Definition lexical (v : pyval) : option string :=
   | PBool true => Some "true"
   | PBool false => Some "false"
   | PInt z => Some (dec_of_Z z)
+  | PFloat r _ => Some r
   | PNone => None
   end.
 
@@ -213,6 +215,7 @@ Definition xs_type (v : pyval) : string :=
   | PStr _ => "xs:string"
   | PBool _ => "xs:boolean"
   | PInt _ => "xs:integer"
+  | PFloat _ _ => "xs:float"
   | PNone => ""
   end.
 
